@@ -18,6 +18,18 @@ REQUIRED_REACH = ["batch_equal", "failure_at_position", "failure_at_submit", "on
 SHARD_TIMEOUT = {"quick": 200, "thorough": 2400}
 
 
+class AppError(Exception):
+    """an application-defined exception that travels through converters the application registered (the sanctioned extension point);
+    its wire form carries a class tag only, no Pyro exception marker"""
+    pass
+
+
+def register_converters(P):
+    SB = P.serializers.SerializerBase
+    SB.register_class_to_dict(AppError, lambda e: {"__class__": "c11.AppError", "args": list(e.args)})
+    SB.register_dict_to_class("c11.AppError", lambda name, d: AppError(*d["args"]))
+
+
 def make_ref_class(P):
     @P.server.expose
     class Ref(object):
@@ -61,6 +73,10 @@ def make_ref_class(P):
             self.calls += 1
             raise P.errors.NamingError(msg)
 
+        def fail_app(self, msg):
+            self.calls += 1
+            raise AppError(msg, self.calls)
+
         def dump(self):
             return {"counter": self.counter, "items": list(self.items), "table": dict(self.table), "calls": self.calls}
 
@@ -83,8 +99,8 @@ def gen_calls(r, n, fail_at):
     calls = []
     for i in range(n):
         if i == fail_at:
-            k = r.randrange(8)
-            calls.append([("fail_value", ("boom%d" % i,), {}), ("fail_pyro", ("naming%d" % i,), {}), ("get", ("missing%d" % i,), {}), ("inc", ("notanumber",), {}),
+            k = r.randrange(9)
+            calls.append([("fail_app", ("app%d" % i,), {}), ("fail_value", ("boom%d" % i,), {}), ("fail_pyro", ("naming%d" % i,), {}), ("get", ("missing%d" % i,), {}), ("inc", ("notanumber",), {}),
                           ("hidden", (1,), {}), ("_priv", (), {}), ("doesnotexist", (1, 2), {}), ("append", (), {})][k])
             continue
         k = r.randrange(7)
@@ -257,6 +273,7 @@ def plan(tier, seed):
 def run_shard(shard, rec):
     P = fixture.pyro()
     Ref = make_ref_class(P)
+    register_converters(P)
     r = gen.rng(rec.seed, "c11", shard["servertype"], shard["serializer"])
     fx = fixture.Fixture(servertype=shard["servertype"], COMMTIMEOUT=0.0)
     try:
@@ -296,6 +313,7 @@ def run_shard(shard, rec):
 def replay(payload, rec):
     P = fixture.pyro()
     Ref = make_ref_class(P)
+    register_converters(P)
     fx = fixture.Fixture(servertype=payload["servertype"], COMMTIMEOUT=0.0)
     try:
         if "batches" in payload:
